@@ -2743,6 +2743,12 @@ class CallMixin(object):
     def call_external(self, ext, args, kw, st, node):
         mod, name = ext
         if mod == 'io' and name == 'StringIO': return self.call_builtin('StringIO', args, kw, st, node)
+        decl_ = next((d_ for d_ in self.reg.classes.values() if d_.external and d_.pyname == name and self.reg.get('<ext>', '%s.__init__' % d_.name) is not None), None)
+        if decl_ is not None:
+            # a library class imported by name (from openpyxl import Workbook) with an assumed constructor contract in the sidecar
+            class _CV(object): pass
+            cv_ = _CV(); cv_.name = decl_.name; cv_.module = None
+            return self.construct(cv_, args, kw, st, node)
         if mod == 'bisect' and name == 'bisect_left':
             a = self.deref(args[0], st)
             if isinstance(a, SeqV) and getattr(a, 'xproxy_of', None) is not None:
